@@ -102,7 +102,7 @@ def gen_cases(tier, seed):
         if any(len(s_["e"]) > 1 for s_ in t + d):
             cases.append({"kind": "quartet", "shells": [c04._rev(s) for s in (t[0], t[1], d[0], d[1])], "classes": ["quartet", "ill:" + name, "arr:(tt|dd)", "primitives-reversed"], "cost": 800})
     rng = bases.rng_for("C11", "ill4")
-    for name, bra, ket, cen4 in c04.ILL4:
+    for name, bra, ket, cen4 in c04.ILL4 + c04.ILL4_SYMMETRY:
         t = [c04._mk(l, e, rng, c_) for (l, e), c_ in zip(bra, cen4[:2])]
         d = [c04._mk(l, e, rng, c_) for (l, e), c_ in zip(ket, cen4[2:])]
         for arr_name, order in (("(td|dt)", [t[0], d[0], d[1], t[1]]), ("(td'|dt')", [t[1], d[0], d[1], t[0]]), ("(tt|dd)", [t[0], t[1], d[0], d[1]])):
